@@ -96,3 +96,60 @@ def console_frames(gen: int, messages, pid0: int = 1) -> list[bytes]:
     if len(frames) != len(messages):
         raise harness.HarnessError("console_frames: frame count mismatch")
     return [wire[f.start:f.end] for f in frames]
+
+
+class ApiRig:
+    """pyairtouch.connect(...) against a simulated console on a virtual loop."""
+
+    def __init__(self, inst, state, behaviour=None, *, connect_script=None) -> None:
+        import pyairtouch
+        from pav.console import Console
+        reset_globals()
+        self.api = pyairtouch
+        self.inst = inst
+        self.gen = inst["gen"]
+        self.loop = new_loop()
+        self.net = fakenet.FakeNet(self.loop)
+        for e in (connect_script or ()):
+            self.net.script.append(tuple(e))
+        self.console = Console(self.net, inst, state, behaviour)
+        model = pyairtouch.AirTouchModel.AIRTOUCH_4 if self.gen == 4 else pyairtouch.AirTouchModel.AIRTOUCH_5
+
+        async def mk():
+            return pyairtouch.connect(model, "console.test", PORT[self.gen])
+
+        r = self.loop.call(mk())
+        if r[0] != "ok":
+            raise harness.HarnessError(f"connect(): {r}")
+        self.at = r[1]
+        self.init_task = None
+        self.init_returned_at = None
+
+    def start_init(self):
+        self.init_task = self.loop.spawn(self.at.init())
+
+        def done(_t):
+            self.init_returned_at = self.loop.time()
+        self.init_task.add_done_callback(done)
+        self.loop.settle()
+        return self.init_task
+
+    def run_init(self, limit: float = 7.0):
+        """Start init() and run until it returns (or `limit` virtual seconds)."""
+        t = self.start_init()
+        t0 = self.loop.time()
+        while not t.done() and self.loop.time() - t0 < limit:
+            self.loop.advance(0.0625)
+        from pav.vloop import outcome
+        return outcome(t)
+
+    @property
+    def sock(self):
+        return self.at._socket
+
+    @property
+    def cur(self):
+        return self.net.current
+
+    def dispose(self) -> None:
+        self.loop.dispose()
